@@ -179,3 +179,98 @@ pub fn pn_stream(driver: &Driver, schemas: &[SchemaJ], seed: u64, n: u64) -> CSt
     }
     st
 }
+
+/// `c15.font` — `Font::to_primitive` against `FontLoad.writeFont` (Model/FontWrite.lean; reader model of the C01
+/// package): generated font dictionaries of every subtype the writer supports (Type1 / TrueType with and without
+/// widths, both CID subtypes, Type0 with its descendant behind a reference), an /Encoding name or dictionary with
+/// /Differences now and then; real `from_primitive`, `to_primitive`, `from_primitive`: the written dictionary, the
+/// VARIANT of the value read back and its name
+pub fn font_stream(driver: &Driver, seed: u64, rounds: u64) -> CStream {
+    use super::{sweep_inputs, SweepInput};
+    let mut st = CStream::new("c15.font", true);
+    let peel = super::tree_peels();
+    let mut reqs = vec![];
+    let mut imps = vec![];
+    for tag in ["Type1", "TrueType", "CIDFontType0", "CIDFontType2", "Type0"] {
+        for round in 0..rounds {
+            let mut rng = Rng::derive(seed, &format!("c15.font/{}", tag), round);
+            let Some(cases) = sweep_inputs("FontData", tag, &mut rng) else { continue };
+            for c in cases {
+                // a descendant placed directly is written by `Font::to_primitive` itself, one level down: not in the
+                // model of this stream (the tower's writers are the derived ones)
+                if c.desc.contains("a direct") {
+                    continue;
+                }
+                let SweepInput::Prim(mut p, mut objs) = c.input else { continue };
+                for q in objs.values_mut() {
+                    if let Primitive::Dictionary(d) = q {
+                        d.remove("CIDToGIDMap");
+                    }
+                }
+                let mut enc = "encoding=as-generated";
+                if let Primitive::Dictionary(d) = &mut p {
+                    // /CIDToGIDMap is read by a hand-written reader of stream objects that is not part of the tower
+                    // (`CidToGidMap` has its own model and stream, c15.hw)
+                    d.remove("CIDToGIDMap");
+                    match rng.below(5) {
+                        0 => {
+                            d.insert("Encoding", name_prim(*rng.pick(&["WinAnsiEncoding", "MacRomanEncoding", "Identity-H", "StandardEncoding", "Custom"])));
+                            enc = "encoding=name";
+                        }
+                        1 => {
+                            let mut e = Dictionary::new();
+                            if rng.chance(2, 3) {
+                                e.insert("BaseEncoding", name_prim("WinAnsiEncoding"));
+                            }
+                            let mut xs = vec![];
+                            for _ in 0..1 + rng.below(3) {
+                                xs.push(Primitive::Integer(rng.below(250) as i32));
+                                for _ in 0..1 + rng.below(3) {
+                                    xs.push(name_prim(*rng.pick(NAMES)));
+                                }
+                            }
+                            e.insert("Differences", Primitive::Array(xs));
+                            d.insert("Encoding", Primitive::Dictionary(e));
+                            enc = "encoding=differences";
+                        }
+                        _ => {}
+                    }
+                }
+                let tolerant = rng.chance(1, 4);
+                let mem = MemResolver::new(objs.clone(), HashMap::new(), tolerant);
+                let imp = quiet(|| {
+                    let x = match pdf::font::Font::from_primitive(p.clone(), &mem) {
+                        Ok(x) => x,
+                        Err(_) => return "rerr".to_string(),
+                    };
+                    let mut up = RecUpdater::new(CREATED_BASE);
+                    let p1 = match x.to_primitive(&mut up) {
+                        Ok(q) => q,
+                        Err(_) => return "werr".to_string(),
+                    };
+                    if !up.objs.is_empty() {
+                        return "created-objects".to_string();
+                    }
+                    match pdf::font::Font::from_primitive(p1.clone(), &mem) {
+                        Ok(x2) => {
+                            let v: String = format!("{:?}", x2.data).chars().take_while(|c| c.is_alphanumeric()).collect();
+                            format!("ok {} {} {}", show_plain(&p1), v, x2.name.as_ref().map(|n| hex(n.as_bytes())).unwrap_or_else(|| "-".into()))
+                        }
+                        Err(_) => format!("rerr2 {}", show_plain(&p1)),
+                    }
+                })
+                .unwrap_or_else(|| "panic".into());
+                st.count(&format!("subtype={}", tag));
+                st.count(enc);
+                st.count(&format!("outcome={}", imp.split(' ').next().unwrap_or("")));
+                reqs.push(format!("c15.font {} {} {} {}", peel as u8, tolerant as u8, objs_text(&objs), show_plain(&p)));
+                imps.push(imp);
+            }
+        }
+    }
+    let resp = driver.ask(&reqs);
+    for ((rq, m), imp) in reqs.iter().zip(resp.iter()).zip(imps.iter()) {
+        st.case(rq, m, imp, imp.starts_with("ok"));
+    }
+    st
+}
